@@ -3,7 +3,7 @@
   polymorphic in the scalar.
 
   * `emu_base/pulser_adapter.py`: `_unique_observable_times`, `_get_target_times` (floor, the
-    set unions as a sorted duplicate-free list, the merge loop of commits c68c973/a740bae/b8e723e), the
+    set unions as a sorted duplicate-free list, the merge loop of commits c68c973/a740bae/b8e723e/7585532), the
     mid-points that give the rows of Ω, the `reps` expansion of `PulserData.get_sequences`.
   * `pulser/backend/config.py`: `is_time_in_evaluation_times`, `is_evaluation_time`;
     `pulser/backend/observable.py`: `_validate_eval_times`, `Observable.__call__` (second
@@ -99,6 +99,13 @@ def mergeGrid (tol : α) (s : List α) : Option (List α) :=
   | [] => none
   | first :: _ => some (fixFirst first (mergeDesc tol s))
 
+/-- `merged[0] = duration` seen on the reversed list (commit 7585532): the last point is
+overwritten, because `floor(duration/dt)*dt/duration*duration` can round past the duration. -/
+def setLast (d : α) : List α → List α
+  | [] => []
+  | [_] => [d]
+  | a :: b :: l => a :: setLast d (b :: l)
+
 def isZero (x : α) : Bool := eqv x 0
 
 /-- `_get_target_times` given the observable times (`relTol` is the literal `2e-12`; `1e-9` before a740bae, `1e-12` before b8e723e). -/
@@ -111,7 +118,7 @@ def targetTimesOf (nat : Nat → α) (fl : α → Int) (relTol duration dt : α)
     else
       match mergeGrid (relTol * duration) (sortedSet (absCands nat n dt duration obs)) with
       | none => .error .indexError
-      | some g => .ok g
+      | some g => .ok (setLast duration g)
 
 /-- `_get_target_times(sequence, config, dt)`: the grid is computed before the observable
 times are collected (so a zero division wins over the "Full" ValueError). -/
